@@ -37,7 +37,7 @@ WITNESS = {
     "standin_hnsw_history": ("src/hnsw_index.rs", "HnswIndex (Euclidean, dim 2, <= 7 entries): every history of length <= 4 (thorough 5) over 8 steps (insert/update 3 ids, delete 2 ids, delete an absent id, rebuild, save+load) from 2 starting contents; model comparison after every step"),
     "standin_authz_programs": ("src/protocol/handler.rs", "Handler::execute_program as 3 non-admin users without write permission on kg1: 7 state-changing statements x 14 program shapes (alone, around queries, comments, blank lines, session rule, two writes, leading whitespace, continuation line, after a query with trailing comment, after read-only meta commands); 7 x 3 programs by an editor of another graph that `.kg use` the protected graph; control: a KG editor can write"),
     "standin_internal_kg": ("src/protocol/handler.rs", "Handler::execute_program as 3 non-admin users: 7 programs with the internal knowledge graph as target, 12 programs naming it in .kg use/create/drop alone and inside multi-line programs (incl. after read-only meta commands and trailing comments)"),
-    "standin_kg_isolation": ("src/storage_engine/mod.rs", "one StorageEngine, graphs `a` and `a_b`, relations `b_c` and `c`: [create both] + every history of length <= 3 (thorough 4) over 11 steps (create/drop each graph, 4 inserts, rule registration, save, restart) + [restart]; model comparison after every step; SEQUENTIAL histories only"),
+    "standin_kg_isolation": ("src/storage_engine/mod.rs", "one StorageEngine, graphs `a` and `a_b`, relations `b_c` and `c`: [create both] + every history of length <= 3 (thorough: + every 5th of length 4) over 11 steps (create/drop each graph, 4 inserts, rule registration, save, restart) + [restart], each with graph names (a, ab) and (a, a_b); model comparison after every step; SEQUENTIAL histories only"),
     "standin_histories_dirty": ("src/storage_engine/mod.rs", "every history of length <= 3 over 2 tuples with a re-insert or an absent delete, save, restart"),
 }
 
